@@ -125,7 +125,7 @@ pub fn scenarios(cfg: &str) -> Vec<Vec<Ev>> {
     let mut v = vec![];
     if cap > 100 && cfg_num(cfg, "shared", 0) == 1 {
         // fill completely, then the last receiver handle goes away: everything must be discarded at once
-        let mut s = vec![e(TRY_SEND, 0, 0); cap as usize + 1];
+        let mut s = vec![e(TRY_SEND, 0, 0); cap as usize];
         s.push(e(DROP_RX, 0, 0));
         s.push(e(TRY_SEND, 0, 0));
         return vec![s];
